@@ -489,7 +489,13 @@ class IPAddr6 (_AddrBase):
       segs = addr.split(':')
       if addr.count('::') > 1:
         raise RuntimeError("Bad address format " + str(addr))
-      if len(segs) < 3 or len(segs) > 8:
+      if '::' in addr:
+        # A leading or trailing '::' shows up as two empty segments
+        if addr.startswith('::'): segs = segs[1:]
+        if addr.endswith('::'): segs = segs[:-1]
+        if len(segs) > 8 or segs.count('') != 1:
+          raise RuntimeError("Bad address format " + str(addr))
+      elif len(segs) != 8 or '' in segs:
         raise RuntimeError("Bad address format " + str(addr))
 
       # Parse the two "sides" of the address (left and right of the optional
